@@ -46,7 +46,7 @@ Definition from_lexical (e : lexical_error) : list span :=
   | LDelimMismatch o c => [mk_span (fst o) (snd o); mk_span (fst c) (snd c)]
   end.
 
-(* proposed repair of the escape span (proposed/C10-escape-span.diff): the whole escaped char *)
+(* since commit 62096ac (the code as it is now): the span of the whole escaped character *)
 Definition from_lexical_fixed (e : lexical_error) : list span :=
   match e with
   | LInvalidEscape t => [mk_span (fst t + 1) (snd t)]
@@ -89,12 +89,12 @@ Definition split_spans (tok : span) (pc : Z) : outcome (span * span) :=
 Definition fuse (a b : span) : span := (Z.min (fst a) (fst b), Z.max (snd a) (snd b)).
 
 (* ---------------------------------------------------------------- external formats *)
-(* unchanged tree: byte_offset .. byte_offset + 1 (json_scanner_error), index .. index + 1 with a
-   *character* index (from_yaml), start .. end + 1 (from_toml) *)
+(* before commit fa9c5c0: byte_offset .. byte_offset + 1 (json_scanner_error), index .. index + 1
+   with a *character* index (from_yaml), start .. end + 1 (from_toml) *)
 Definition json_error_span (byte_offset : Z) : span := (byte_offset, byte_offset + 1).
 Definition toml_error_span (t : span) : span := (fst t, snd t + 1).
 
-(* proposed repair (proposed/C10-external-format-spans.diff): external_error_span *)
+(* since commit fa9c5c0 (the code as it is now): parser/src/error.rs external_error_span *)
 Fixpoint snap_down (bnd : Z -> bool) (fuel : nat) (p : Z) : Z :=
   match fuel with
   | O => 0
